@@ -7,7 +7,7 @@ module-level name so that the graph survives pickling; unpickling restores the c
 state and never calls the graph creator again).
 
 A level description (JSON-serialisable):
-  {"nodes": [{"gid": 3, "kind": "term"} | {"gid": 5, "kind": "macro", "inner": <level>} ...]  insertion order
+  {"nodes": [{"gid": 3, "kind": "term" | "cterm"} | {"gid": 5, "kind": "macro", "inner": <level>} ...]  insertion order
    "slots": {"3": [[src, ...], [src, ...], [src, ...]], ...}   per node, per input slot (a, b, c — macros: a, b)
                                                                 the sources in connection-creation order;
                                                                 a source is a sibling gid or "A" / "B"
@@ -25,6 +25,33 @@ from . import nodes
 SPEC_QUEUE: list = []
 
 
+class CpTuple(tuple):
+    """a term that only cloudpickle can serialise: it carries a closure (think: a fitted model)"""
+
+    def __new__(cls, items):
+        self = super().__new__(cls, items)
+        self.fn = lambda: items[0]  # noqa: E731 - the point is that plain pickle cannot handle it
+        return self
+
+
+def _mk_c(i):
+    def fn(a="d", b="d", c="d"):
+        nodes._record(i, a, b, c)
+        r = CpTuple((f"f{i}", a, b, c))
+        return r
+
+    fn.__name__ = f"C{i}"
+    fn.__qualname__ = f"C{i}"
+    fn.__module__ = __name__
+    from pyiron_workflow import as_function_node
+
+    return as_function_node("o", validate_output_labels=False)(fn)
+
+
+for _i in range(nodes.N_TERM):
+    globals()[f"C{_i}"] = _mk_c(_i)
+
+
 def out_channel(node):
     return list(node.outputs)[0]
 
@@ -36,6 +63,8 @@ def build_level(owner, spec, macro_inputs=None):
         gid, label = nd["gid"], f"n{nd['gid']}"
         if nd["kind"] == "term":
             n = nodes.term_node(gid, label=label)
+        elif nd["kind"] == "cterm":  # same function symbol, output needs cloudpickle
+            n = globals()[f"C{gid}"](label=label)
         elif nd["kind"] == "macro":
             SPEC_QUEUE.insert(0, nd["inner"])
             n = Mac8(label=label)
